@@ -416,7 +416,14 @@ def c17_build(seed, tier):
     A = _alts(g, names, r.randint(1, 3), r.choice(kinds))
     B = _alts(g, names, r.randint(1, 3), r.choice(kinds))
     pt = {n: float(_dy(r)) for n in names}
-    return {"op": "compound", "names": names, "A": [tl_data(x) for x in A], "B": [tl_data(x) for x in B], "point": pt, "what": r.choice(["contains", "le", "merge", "construct"])}
+    what = r.choice(["contains", "le", "merge", "construct"])
+    if what == "construct" and len(names) >= 2 and r.random() < 0.3:
+        # alternatives over SEPARATE variables: two feasible ones always share a behaviour, an infeasible one shares none
+        lo, hi = r.randint(-3, 3), r.randint(-3, 3)
+        first = g.PTL(g.bounds(names[0], lo, hi))  # empty when lo > hi
+        second = g.PTL(g.bounds(names[1], -r.randint(0, 3), r.randint(0, 3)))
+        A = [first, second] if r.random() < 0.5 else [second, first]
+    return {"op": "compound", "names": names, "A": [tl_data(x) for x in A], "B": [tl_data(x) for x in B], "point": pt, "what": what}
 
 
 def _union_formula(alts, env):
